@@ -127,7 +127,8 @@ package main
 //@ readonly generatedFileCommentRE @compiled value != nil
 
 //@ spec fileNameOf(p *program, f *ast.File) string = pathBase(fsetPosition(p.fset, filePos(f)).Filename)
-//@ spec isGenSpec(f *ast.File) bool = len(f.Comments) != 0 && reMatch(generatedFileCommentRE, cgText(f.Comments[0]))
+// generated = the first comment group is a header (it ends before the package clause) and carries the marker
+//@ spec isGenSpec(f *ast.File) bool = len(f.Comments) != 0 && cgEnd(f.Comments[0]) <= f.Package && reMatch(generatedFileCommentRE, cgText(f.Comments[0]))
 //@ spec skipFile(p *program, f *ast.File) bool = (!p.checkTests && hasSuffix(fileNameOf(p, f), "_test.go")) || (!p.checkGenerated && isGenSpec(f))
 
 //@ func (*program).getFilename
